@@ -75,6 +75,8 @@ pub fn family(th: bool) -> Vec<(String, Envelope)> {
     out.push(("map:40".into(), Envelope::new({ let mut m = Map::new(); for i in 0..40 { m.insert(i, format!("v{i}")); } m })));
     out.push(("tags:nested-12".into(), Envelope::new({ let mut c = CBOR::from("core"); for t in 0..12u64 { c = CBOR::to_tagged_value(100 + t, c) } c })));
     out.push(("float:nan".into(), Envelope::new(f64::NAN))); out.push(("int:min".into(), Envelope::new(i64::MIN))); out.push(("date:far-future".into(), Envelope::new(dcbor::Date::from_timestamp(253402300799.0))));
+    // wide / deep boundary shapes
+    for (wn, m) in families::wide_all(th) { if let Ok(e) = catch(|| bind::build(&m, 0)) { out.push((format!("wide:{wn}"), e)) } }
     // decode-only shapes
     for (i, m) in families::decode_only().iter().enumerate() { out.push((format!("decode-only{i}:{}", m.show()), bind::build_route(m, bind::Route::Decode))) }
     // envelopes ACCEPTED by the decoder from the structural mutation family of C06 (adversarially decoded ones)
